@@ -410,6 +410,17 @@ example :
   intro s hs
   simp at hs
   rcases hs with rfl | rfl <;> rfl
+-- effective minimum = raw minimum minus the eliminated AllScorer SHOULD clauses: SHOULD[ALL, a, b, c]
+-- with msm = 3 needs two of a, b, c (Disjunction with 2, not promotion of a, b, c to MUST)
+example :
+    let doc : ADoc := ⟨1, [⟨1, [97], [0]⟩, ⟨1, [98], [1]⟩], []⟩
+    let doc2 : ADoc := ⟨2, [⟨1, [97], [0]⟩], []⟩
+    let t (c : Nat) : Query := .leaf (.term 1 [c])
+    let q : Query := .bool [(.should, .leaf .all), (.should, t 97), (.should, t 98), (.should, t 99)] 3
+    okQ q = true ∧ sem q doc = true ∧ sem q doc2 = false
+      ∧ interp 2 (compile leafTree true [doc, doc2] false q) = [0]
+      ∧ interp 2 (compileTop leafTree false [doc, doc2] q) = [0] := by
+  decide
 -- with a deleted document the count shortcut would over-count: the side condition is needed
 example :
     let d1 : ADoc := ⟨1, [⟨1, [97], [0]⟩], []⟩
